@@ -76,7 +76,46 @@ def jobs(tier):
                    bounded='%d time points; finite weights in [-3, 3] plus the inf() sentinel (both tiers); no registered undecided constraints (the re-propagation loop is empty)' % N))
     out.append(lit_job(tier, c))
     out.append(resize_job(tier))
+    out.extend(hops_jobs(tier, c))
     return out
+
+
+def hops_jobs(tier, c_edge):
+    """termination of the predecessor walks (the explanation loops of propagate(const lit&)) as an invariant instead of an assumption:
+    (1) the edge step keeps the hop-count invariant spa_hops_ok for explicitly given new hop counts; (2) lemma: spa_hops_ok implies
+    that every predecessor walk reaches its row's time point within XT_N - 1 hops."""
+    N = 4   # the i x j double loop of the edge step needs four different time points
+    d = {'U_BITS': 8, 'I_BITS': 8, 'WIDE_BITS': 16, 'XT_N': N, 'XT_R': 3}
+    caps = {'vec_vec_I': N, 'vec_I': N, 'vec_vec_U': N, 'vec_U': N, 'vec_pair_U_U': 2 + 4 * N + 2 * N * N, 'map_pair_U_U_vec_idl_distancep': 1,
+            'vec_idl_distancep': 1, 'map_pair_U_U_idl_distancep': 1, 'vec_lit': 2, 'vec_us': 2, 'vec_layer': 1, 'map_pair_U_U_I': 1, 'map_pair_U_U_U': 1,
+            'umap_U_set_idl_value_listenerp': 1, 'set_idl_value_listenerp': 1}
+    D0 = OLD('self->_dists')
+    c = Contract(requires=[r for r in c_edge.requires if 'spa_rec' not in r] + ['spa_hops_ok(self->_dists, self->_preds, xt_H)'],
+                 ensures=[('noexcept', '__exc == 0'),
+                          ('hop_count_invariant_kept', 'spa_hops_ok(self->_dists, self->_preds, spa_H_step(%s, self->_dists, xt_H, *from, *to))' % D0),
+                          ('WITNESS_an_improvement_through_both_legs_is_reachable', '!(*from == 1 && *to == 2 && self->_dists.e[0].e[3] != %s.e[0].e[3])' % D0)],
+                 assigns='__exc, self->_dists, self->_preds, self->base_theory.cnfl')
+    HARN = ('void xt_harness(void)\n{\n  xt_init_globals();\n  struct smt_idl_theory th; th.dist_constrs.n = 0; th.base_theory.cnfl.n = 0; th.layers.n = 0; th.listening.n = 0;\n'
+            '  { struct vec_vec_I ge; xt_E = ge; struct vec_vec_U gh; xt_H = gh; }\n  U_t *from; U_t *to; I_t *dist;\n  smt_idl_theory_propagate__U__U__I(&th, from, to, dist);\n}\n')
+    j1 = Job('idl.propagate_edge_hops', 'smt_idl_theory_propagate__U__U__I', tus=TUS, contract=c, defines=d, unwind=N + 2, model_unwind=max(2 + 4 * N + 2 * N * N, 12) + 1,
+             spec_headers=['dl_apsp_spec.h'], callee_contracts={REC: C_REC, 'smt_idl_value_listener_idl_value_change__U': C_REC}, replace=[REC, 'smt_idl_value_listener_idl_value_change__U'], exceptions=True,
+             caps=caps, abstract_fields=ABS, timeout=3000, mem_gb=32, mem_est=8, solver='cadical', loop_unwind={6: 2 + 4 * N + 2 * N * N + 2}, harness=HARN,
+             force_types=['std::vector<std::vector<long>>', 'std::vector<std::vector<unsigned long>>'],
+             bounded='%d time points, weights in [-3, 3]; no registered undecided constraints' % N)
+    LEM = '''void xt_harness(void)
+{
+  struct vec_vec_I D; struct vec_vec_U P; struct vec_vec_U H;
+  __CPROVER_assume(h_spa_shape(D, P) && h_spa_hops_ok(D, P, H));
+  __CPROVER_assert(h_spa_all_walks_ok(D, P), "every_predecessor_walk_reaches_its_row_within_N_minus_1_hops");
+  __CPROVER_assert(xt_canary, "xt canary");
+}
+'''
+    dl = dict(d, XT_N=4)
+    j2 = Job('idl.hops_imply_walks', None, tus=TUS, contract=None, enforce=False, defines=dl, unwind=6, model_unwind=6, spec_headers=['dl_apsp_spec.h'],
+             caps={'vec_vec_I': 4, 'vec_I': 4, 'vec_vec_U': 4, 'vec_U': 4}, abstract_fields={'smt::sat_core': [], 'smt::theory': ['sat'], 'smt::idl_theory': ['n_vars', '_dists', '_preds']}, harness=LEM, roots=['smt_idl_theory_size'],
+             timeout=1200, mem_gb=12, solver='cadical', force_types=['std::vector<std::vector<long>>', 'std::vector<std::vector<unsigned long>>'],
+             bounded='pure lemma over the specification predicates, 4 time points, hop counts up to 255')
+    return [j1, j2]
 
 
 def resize_job(tier):
@@ -131,8 +170,9 @@ def lit_job(tier, c_edge):
     d = {'U_BITS': 8, 'I_BITS': 8, 'WIDE_BITS': 16, 'XT_N': N, 'XT_R': 3, 'XT_MC': MC, 'XT_NV': 4}
     PROPE = 'smt_idl_theory_propagate__U__U__I'
     # the callee: everything propagate(from, to, dist) was proved to need and to guarantee (is_fresh / recording clauses dropped)
-    ce = Contract(requires=[r for r in c_edge.requires if 'is_fresh' not in r and 'spa_rec' not in r],
-                  ensures=[e for e in c_edge.ensures], assigns='__exc, self->_dists, self->_preds, self->base_theory.cnfl')
+    ce = Contract(requires=[r for r in c_edge.requires if 'is_fresh' not in r and 'spa_rec' not in r] + ['spa_hops_ok(self->_dists, self->_preds, xt_H)'],
+                  ensures=[e for e in c_edge.ensures] + [('hop_count_invariant_kept', 'spa_hops_ok(self->_dists, self->_preds, spa_H_step(%s, self->_dists, xt_H, *from, *to))' % OLD('self->_dists'))],
+                  assigns='__exc, self->_dists, self->_preds, self->base_theory.cnfl')
     DD = 'self->var_dists.e[0].second'
     SATP = 'self->base_theory.sat'
     V = '(spl_value(%s->assigns, %s->b) == SPL_TRUE)' % (SATP, DD)
@@ -156,8 +196,9 @@ def lit_job(tier, c_edge):
                   ] + ['(self->dist_constr.n < %d || (__CPROVER_is_fresh(self->dist_constr.e[%d].second, sizeof(*%s)) && (self->dist_constr.e[%d].second->b.x >> 1) < XT_NV))' % (k + 1, k, DD, k) for k in range(MC)] + [
                   # link invariant: every ghost edge is the enforced constraint of its pair, read under the current assignment
                   'spl_link(%s->assigns, self->dist_constr, xt_E)' % SATP,
-                  # assumed (not yet proved as an invariant of the edge step): predecessor rows are trees, walks end within N - 1 hops
-                  'spa_walk_ok(self->_preds, %s, %s) && spa_walk_ok(self->_preds, %s, %s)' % (T, F, F, T),
+                  # hop-count invariant (kept by the edge step: job idl.propagate_edge_hops): predecessor rows are trees, so the explanation
+                  # walks below terminate within N - 1 hops (lemma idl.hops_imply_walks; here CBMC derives it for this N directly)
+                  'spa_hops_ok(self->_dists, self->_preds, xt_H)',
                   'spa_rec(self->_dists, self->_preds, xt_E, %s, %s, %s) && spl_rec(%s->assigns, self->dist_constr, *p)' % (F, T, K, SATP)],
         ensures=[('noexcept', '__exc == 0'),
                  ('conflict_iff_the_constraint_closes_a_negative_cycle', '%s == !%s' % (R, CONFLICT)),
@@ -173,6 +214,7 @@ def lit_job(tier, c_edge):
                  ('WITNESS_conflict_with_a_two_hop_explanation_is_reachable', '%s || self->base_theory.cnfl.n < 3' % R),
                  ('WITNESS_conflict_on_a_false_literal_is_reachable', '%s || %s' % (R, V)),
                  ('WITNESS_tightening_without_conflict_is_reachable', '!%s || !%s' % (R, IMPROVES)),
+                 ('without_conflict_hop_count_invariant_kept', '!%s || spa_hops_ok(self->_dists, self->_preds, spa_H_step(%s, self->_dists, xt_H, %s, %s))' % (R, D0, EF, ET)),
                  ('without_conflict_link_invariant_kept', '!%s || spl_link(%s->assigns, self->dist_constr, %s)' % (R, SATP, E1))],
         assigns='__exc, self->_dists, self->_preds, self->base_theory.cnfl, self->dist_constr')
     caps = {'vec_vec_I': N, 'vec_I': N, 'vec_vec_U': N, 'vec_U': N, 'map_pair_U_U_vec_idl_distancep': 1, 'vec_idl_distancep': 1, 'map_pair_U_U_idl_distancep': MC + 1,
@@ -220,4 +262,4 @@ LIT_REPLAY = '''  const int n = XT_N; sat_core sat; long xinf = 62;
 
 
 # what the evidence file says is NOT decided by this module, and what it assumes
-INFO = {'not_under_contract': ['rdl_theory', 'idl_theory::check(), the re-propagation of registered undecided constraints after an edge step', 'pop (covered under C08)'], 'assumptions': ['predecessor walks terminate (acyclic predecessor rows): precondition of the propagate(const lit&) job', 'link invariant (every ghost edge is the enforced constraint of its pair) holds initially: it is kept by propagate(const lit&), restored with the snapshot by pop']}
+INFO = {'not_under_contract': ['rdl_theory', 'idl_theory::check(), the re-propagation of registered undecided constraints after an edge step', 'pop (covered under C08)'], 'assumptions': [ 'link invariant (every ghost edge is the enforced constraint of its pair) holds initially: it is kept by propagate(const lit&), restored with the snapshot by pop']}
